@@ -26,9 +26,15 @@ package lexer
 // RateOK: the sampling rate is finite and strictly positive (1 until an @rate attribute is accepted)
 //@ pred RateOK(l *Lexer) := isFinite(l.sampling) && l.sampling > 0.0
 
+// allowedByte / KeyClean / NameClean: the documented name alphabet [A-Za-z0-9._-] (C02, name normalisation):
+// every byte of the key consumed so far has been sanitised, and so has the name built from it.
+//@ pred allowedByte(b byte) := (97 <= b && b <= 122) || (65 <= b && b <= 90) || (48 <= b && b <= 57) || b == '.' || b == '-' || b == '_'
+//@ pred KeyClean(l *Lexer, hi int) := forall k int :: off(l.input) <= k && k < off(l.input) + hi ==> allowedByte(at(l.input, k))
+//@ pred NameClean(s string) := forall j int :: 0 <= j && j < len(s) ==> allowedByte(s[j])
+
 //@ pred LexInv(l *Lexer) := l != nil && l.len == len(l.input) && l.pos <= l.len && len(l.input) < 4294967296 && l.MetricPool != nil
 
-//@ pred StateReq(f stateFn, l *Lexer) := (needM(f) ==> l.m != nil) && (needE(f) ==> l.e != nil) && (startZero(f) ==> l.start == 0) && (afterSep(f) ==> l.start < l.pos) && (startOK(f) ==> l.start <= l.pos) && (isBound(f) ==> boundLexer(f) == l) && (named(f) ==> len(l.m.Name) > 0) && (typed(f) ==> 1 <= l.m.Type && l.m.Type <= 4) && (blank(f) ==> l.m == nil)
+//@ pred StateReq(f stateFn, l *Lexer) := (needM(f) ==> l.m != nil) && (needE(f) ==> l.e != nil) && (startZero(f) ==> l.start == 0) && (afterSep(f) ==> l.start < l.pos) && (startOK(f) ==> l.start <= l.pos) && (isBound(f) ==> boundLexer(f) == l) && (named(f) ==> len(l.m.Name) > 0 && (l.namespace == "" ==> NameClean(l.m.Name))) && (startZero(f) && afterSep(f) ==> KeyClean(l, l.pos - 1)) && (startZero(f) && !afterSep(f) ==> l.pos == 0) && (typed(f) ==> 1 <= l.m.Type && l.m.Type <= 4) && (blank(f) ==> l.m == nil)
 
 //@ pred Inherit(f stateFn, g stateFn) := needM(f) == needM(g) && needE(f) == needE(g) && startZero(f) == startZero(g) && afterSep(f) == afterSep(g) && startOK(f) == startOK(g) && isBound(f) == isBound(g) && boundLexer(f) == boundLexer(g) && named(f) == named(g) && typed(f) == typed(g) && blank(f) == blank(g)
 
@@ -46,7 +52,7 @@ package lexer
 //@ pred goodTag(s string) := len(s) > 0 && (forall j int :: 0 <= j && j < len(s) ==> s[j] != ',' && s[j] != '|')
 //@ pred TagsOK(tags gostatsd.Tags) := forall i int :: 0 <= i && i < len(tags) ==> goodTag(tags[i])
 
-//@ pred Done(l *Lexer) := l.err == nil ==> (l.m != nil || l.e != nil) && (l.m != nil ==> len(l.m.Name) > 0 && 1 <= l.m.Type && l.m.Type <= 4)
+//@ pred Done(l *Lexer) := l.err == nil ==> (l.m != nil || l.e != nil) && (l.m != nil ==> len(l.m.Name) > 0 && (l.namespace == "" ==> NameClean(l.m.Name)) && 1 <= l.m.Type && l.m.Type <= 4)
 
 //@ functype stateFn(l)
 //@   floats ieee
@@ -55,7 +61,7 @@ package lexer
 //@   ensures  LexInv(l)
 //@   ensures  result != nil ==> StateReq(result, l)
 //@   ensures  result == nil ==> Done(l)
-//@   ensures  l.MetricPool == old(l.MetricPool)
+//@   ensures  l.MetricPool == old(l.MetricPool) && l.namespace == old(l.namespace)
 //@   ensures  Owned(l, old(l.m), old(l.e), old(base(l.tags)), old(base(l.input)))
 //@   modifies l.*, l.input[*], l.m.*, l.e.*, l.tags[*]
 
@@ -66,7 +72,7 @@ package lexer
 //@   ensures  LexInv(l)
 //@   ensures  result != nil ==> StateReq(result, l)
 //@   ensures  result == nil ==> Done(l)
-//@   ensures  l.MetricPool == old(l.MetricPool)
+//@   ensures  l.MetricPool == old(l.MetricPool) && l.namespace == old(l.namespace)
 //@   ensures  Owned(l, old(l.m), old(l.e), old(base(l.tags)), old(base(l.input)))
 //@   modifies l.*, l.input[*], l.m.*, l.e.*, l.tags[*]
 
@@ -87,6 +93,7 @@ package lexer
 //@   ensures  l.MetricPool == old(l.MetricPool)
 //@   ensures  result2 == nil ==> result0 != nil || result1 != nil
 //@   ensures  [W] result2 == nil && result0 != nil ==> len(result0.Name) > 0
+//@   ensures  [W] result2 == nil && result0 != nil && namespace == "" ==> NameClean(result0.Name)
 //@   ensures  [W] result2 == nil && result0 != nil && result0.Type != gostatsd.SET ==> !isNaN(result0.Value)
 //@   ensures  [W] result2 == nil && result0 != nil ==> isFinite(result0.Rate) && result0.Rate > 0.0
 //@   ensures  [W] result2 == nil && result0 != nil ==> TagsOK(result0.Tags) && 1 <= result0.Type && result0.Type <= 4
@@ -95,7 +102,7 @@ package lexer
 //@   ensures  [fresh] result1 == nil || fresh(result1)
 //@   ensures  [fresh] result0 != nil && result2 == nil ==> base(result0.Tags) == 0 || fresh(base(result0.Tags))
 //@   ensures  [fresh] result1 != nil && result0 == nil && result2 == nil ==> base(result1.Tags) == 0 || fresh(base(result1.Tags))
-//@   loop 1 invariant LexInv(l) && (state != nil ==> StateReq(state, l)) && (state == nil ==> Done(l)) && l.MetricPool == old(l.MetricPool)
+//@   loop 1 invariant LexInv(l) && (state != nil ==> StateReq(state, l)) && (state == nil ==> Done(l)) && l.MetricPool == old(l.MetricPool) && l.namespace == namespace
 //@   loop 1 invariant TagsOK(l.tags) && RateOK(l)
 //@   loop 1 invariant (l.m == nil || fresh(l.m)) && (l.e == nil || fresh(l.e)) && (base(l.tags) == 0 || fresh(base(l.tags))) && base(l.input) == base(input)
 //@   modifies l.*, input[*]
@@ -107,7 +114,7 @@ package lexer
 //@ func lexKeySep
 //@   label L2(self, false, false)
 //@   label L(self, true, false, true, false, false) && !isBound(self)
-//@   loop 1 invariant LexInv(l) && base(l.input) == old(base(l.input))
+//@   loop 1 invariant LexInv(l) && base(l.input) == old(base(l.input)) && off(l.input) == old(off(l.input)) && l.start == 0 && KeyClean(l, l.pos)
 
 //@ func lexKey
 //@   label L2(self, false, false)
@@ -174,11 +181,11 @@ package lexer
 
 //@ func lexAssert$1
 //@   label Inherit(self, next)
-//@   captures next != nil
+//@   captures next != nil && !startZero(next)
 
 //@ func lexUint$1
 //@   label Inherit(self, handler)
-//@   captures handler != nil
+//@   captures handler != nil && !startZero(handler)
 //@   loop 1 invariant LexInv(l) && l.pos >= old(l.pos)
 
 // The closure writes through `target`; it is bound to the lexer that owns that field.
@@ -187,7 +194,7 @@ package lexer
 //@   label isBound(self) && boundLexer(self) == objOf(target)
 //@   captures fieldIs(target, Lexer.eventTitleLen) || fieldIs(target, Lexer.eventTextLen)
 //@   captures isBound(next) ==> boundLexer(next) == objOf(target)
-//@   captures next != nil
+//@   captures next != nil && !startZero(next)
 
 //@ func seekDelimited
 //@   requires LexInv(l) && stop != 0 && delimiter != 0
